@@ -191,3 +191,37 @@ def derivative_dynmat_safety():
     # establishes by choosing q / q_direction; that branch's subscripts are covered functionally in C12 (get_dA, get_dC lemmas) only
     return Contract(F2, "ddm_get_derivative_dynmat_at_q", tag="[safety,is_nac=0]", shapes=DDM.DDM_SHAPES, nullable=("born", "dielectric", "q_direction"),
                     macros={"PI": PI}, requires=req, modifies=("derivative_dynmat",), auto_range=True, race=True, fixed={"is_nac": 0})
+
+
+def qpoints_driver_safety():
+    """dym_dynamical_matrices_with_dd_openmp_over_qpoints, no-NAC configuration (use_Wang_NAC == 0, dd_q0 == NULL): the
+    `omp parallel for` loop over the q-points calls dym_get_dynamical_matrix_at_q by contract; its
+    preconditions are established for every q-point (call-pre obligations) and their accesses stay inside the callee's view
+    dynamical_matrices[i] resp. qpoints[i], hence different iterations touch disjoint memory.
+    Call site: phonopy/harmonic/dynamical_matrix.py run_dynamical_matrix_solver_c."""
+    from contracts import c_dynmat as DM
+    sq = z3.Function("c_sqrt", z3.RealSort(), z3.RealSort())
+    ii = z3.Int("ii!q")
+    SH = dict(DM.WANT_SHAPES)
+    SH.update({"dynamical_matrices": lambda P: [P.n_qpoints, 3 * P.num_patom, 3 * P.num_patom, 2], "qpoints": lambda P: [P.n_qpoints, 3],
+               "positions": lambda P: [P.num_patom, 3], "dd_q0": lambda P: [P.num_patom, 3, 3, 2], "G_list": lambda P: [P.num_G_points, 3]})
+
+    def req(V0):
+        V = DM.alias(V0, mass="masses")
+        rec, eps = V0.a.reciprocal_lattice, V0.a.dielectric
+        qc = [sum(rec[a, b] * V0.a.qpoints[ii, b] for b in range(3)) for a in range(3)]
+        small = sq(qc[0] * qc[0] + qc[1] * qc[1] + qc[2] * qc[2]) < z3.RealVal("1/100000")
+        nd = [sum(rec[a, b] * V0.a.q_direction[b] for b in range(3)) for a in range(3)]
+        return DM.wf_maps(V) + [
+            _pos_masses(V0, "masses"), DM.NCELL >= 1, V0.p.num_satom == DM.NCELL * V0.p.num_patom, V0.p.n_qpoints >= 0,
+            V0.null.dd_q0,                                        # Gonze-Lee configuration excluded from this instance
+            z3.ForAll([ii], z3.Implies(z3.And(ii >= 0, ii < V0.p.n_qpoints, z3.Not(small)), DM.qeq(qc, eps) != 0)),
+            z3.Implies(z3.Not(V0.null.q_direction), DM.qeq(nd, eps) != 0)]
+    qcart, dp, cs = DM.get_q_cart_contract(), DM.get_dielectric_part_contract(), DM.charge_sum_contract()
+    reg = {"get_q_cart": qcart, "get_dynmat_want": DM.dynmat_want_contract(), "dym_get_dynamical_matrix_at_q": DM.dynmat_at_q_contract()}
+    # The Wang configuration is generated but its last call-pre (n.eps.n != 0 for the Cartesian direction computed by get_q_cart)
+    # is a degree-5 polynomial inequation that z3 does not decide in the budget; the instance claimed is the no-NAC one.
+    c = Contract(DF, "dym_dynamical_matrices_with_dd_openmp_over_qpoints", tag="[safety,no NAC]", fixed={"use_Wang_NAC": 0}, shapes=SH,
+                 nullable=("q_direction", "dd_q0", "born", "G_list"), macros={"PI": PI}, requires=req, modifies=("dynamical_matrices",),
+                 auto_range=True, race=True, prune=True, abstract_mul=True, use_contracts={"get_q_cart", "get_dynmat_want", "dym_get_dynamical_matrix_at_q"})
+    return c, reg
